@@ -239,6 +239,9 @@ func txCase1(stage string, tx *bt.Tx) {
 	if !ok {
 		return
 	}
+	if !bytes.Equal(tx.Bytes(), want) || tx.TxID() != id {
+		c.Violate("json.Marshal(*bt.Tx)/marshalling-modifies-the-transaction", fmt.Sprintf("serialisation before %s, after %s", trunc(hex.EncodeToString(want)), trunc(hex.EncodeToString(tx.Bytes()))), in)
+	}
 	var nback, nfback []byte
 	t3 := bt.NewTx()
 	if suffix != "" {
@@ -344,6 +347,35 @@ func txsCase1(txs bt.Txs) {
 	var l2, n2 bt.Txs
 	if !unmarshal("json.Marshal(bt.Txs)", ldoc, &l2, in) || !unmarshal("json.Marshal(txs.NodeJSON())", ndoc, n2.NodeJSON(), in) {
 		return
+	}
+	// the same documents into destinations that already hold transactions (with and without spare capacity):
+	// the result is the list that was marshalled, not what the variable held before
+	for _, spare := range []int{0, 8} {
+		mk := func() bt.Txs {
+			d := make(bt.Txs, 0, 3+spare)
+			for k := 0; k < 3; k++ {
+				t := bt.NewTx()
+				t.LockTime = uint32(k + 1)
+				d = append(d, t)
+			}
+			return d
+		}
+		l3, n3 := mk(), mk()
+		if unmarshal("json.Marshal(bt.Txs)", ldoc, &l3, in) && unmarshal("json.Marshal(txs.NodeJSON())", ndoc, n3.NodeJSON(), in) {
+			var lb3, nb3 []byte
+			for _, t := range l3 {
+				lb3 = append(lb3, t.Bytes()...)
+			}
+			for _, t := range n3 {
+				nb3 = append(nb3, t.Bytes()...)
+			}
+			if !bytes.Equal(lb3, want) || len(l3) != len(txs) {
+				c.Violate("json.Marshal(bt.Txs)/roundtrip-into-used-destination", fmt.Sprintf("%d transactions after unmarshalling a list of %d into a variable that held 3", len(l3), len(txs)), in)
+			}
+			if !bytes.Equal(nb3, want) || len(n3) != len(txs) {
+				c.Violate("json.Marshal(txs.NodeJSON())/roundtrip-into-used-destination", fmt.Sprintf("%d transactions after unmarshalling a list of %d into a variable that held 3", len(n3), len(txs)), in)
+			}
+		}
 	}
 	var lb, nb []byte
 	for _, t := range l2 {
@@ -501,7 +533,13 @@ func utxosCase1(us bt.UTXOs) {
 	if !unmarshal("json.Marshal(bt.UTXOs)", ldoc, &l2, in) || !unmarshal("json.Marshal(utxos.NodeJSON())", ndoc, n2.NodeJSON(), in) {
 		return
 	}
-	for _, got := range []bt.UTXOs{l2, n2} {
+	// also into variables that already hold UTXOs
+	l3 := bt.UTXOs{{TxID: bytes.Repeat([]byte{9}, 32), Vout: 9, Satoshis: 9}, {TxID: bytes.Repeat([]byte{8}, 32), Vout: 8}}
+	n3 := append(make(bt.UTXOs, 0, 16), &bt.UTXO{TxID: bytes.Repeat([]byte{7}, 32), Vout: 7, Satoshis: 7}, &bt.UTXO{TxID: bytes.Repeat([]byte{6}, 32)}, &bt.UTXO{TxID: bytes.Repeat([]byte{5}, 32)})
+	if !unmarshal("json.Marshal(bt.UTXOs)", ldoc, &l3, in) || !unmarshal("json.Marshal(utxos.NodeJSON())", ndoc, n3.NodeJSON(), in) {
+		return
+	}
+	for _, got := range []bt.UTXOs{l2, n2, l3, n3} {
 		bad := len(got) != len(us)
 		for i := 0; !bad && i < len(us); i++ {
 			a, u := got[i], us[i]
@@ -729,6 +767,35 @@ func main() {
 			pool = append(pool, tx)
 		}
 	}
+	// script shapes the assembly renderer and the node document treat specially, as locking and as unlocking
+	// scripts: data scripts with pushes of 0..6 bytes in every order of two, zero-length PUSHDATA forms alone and
+	// concatenated, truncated pushes, lone opcodes
+	{
+		var shapes [][]byte
+		for a := 0; a <= 6; a++ {
+			for b := 0; b <= 6; b++ {
+				pa, pb := append([]byte{byte(a)}, r.Bytes(a)...), append([]byte{byte(b)}, r.Bytes(b)...)
+				shapes = append(shapes, append(append([]byte{0x00, 0x6a}, pa...), pb...), append(append([]byte{0x6a}, pa...), pb...))
+			}
+		}
+		shapes = append(shapes, []byte{0x4c, 0x00}, []byte{0x4d, 0x00, 0x00}, []byte{0x4e, 0, 0, 0, 0}, []byte{0x4c, 0x00, 0x4c, 0x00}, []byte{0x4c, 0x00, 0x4d, 0x00, 0x00, 0x4e, 0, 0, 0, 0},
+			[]byte{0x6a, 0x4c, 0x00}, []byte{0x00, 0x6a, 0x4c, 0x00, 0x03, 1, 2, 3, 0x51}, []byte{0x4c, 0x00, 0x51}, []byte{0x00}, []byte{0x00, 0x00}, []byte{0x4c}, []byte{0x05, 0x01}, []byte{0x4d, 0xff}, []byte{0x51}, []byte{0x6a}, []byte{0x00, 0x6a})
+		for i, sh := range shapes {
+			tx := bt.NewTx()
+			in := &bt.Input{PreviousTxOutIndex: uint32(i), SequenceNumber: 0xffffffff}
+			_ = in.PreviousTxIDAdd(r.Bytes(32))
+			if i%3 == 0 {
+				in.UnlockingScript = bscript.NewFromBytes(append([]byte{}, sh...))
+			}
+			tx.Inputs = append(tx.Inputs, in)
+			tx.Outputs = append(tx.Outputs, &bt.Output{Satoshis: uint64(i), LockingScript: bscript.NewFromBytes(append([]byte{}, sh...))},
+				&bt.Output{Satoshis: 1, LockingScript: bscript.NewFromBytes([]byte{0x51})})
+			txCase("script-shape", tx)
+			if i%5 == 0 {
+				outCase(uint64(i), sh)
+			}
+		}
+	}
 	// 2. lists
 	for _, n := range []int{0, 1, 2, 5} {
 		if n <= len(pool) {
@@ -809,6 +876,6 @@ func main() {
 		amountList(l)
 	}
 
-	c.Stats.Rule = "transactions at every build stage through the public API (tx.From = unsigned, FillInput on one input = partially signed, FillAllInputs = signed, NewTxFromBytes of the extended bytes = decoded) plus generated transactions (nil/empty unlocking scripts, arbitrary output script bytes, boundary uint32/uint64 values), each marshalled and unmarshalled in the library and the node dialect and with the node document's hex removed (vin/vout path); lists of 0/1/2/5; outputs and UTXOs over boundary amounts (0,1,2,3,6,dust,1e8+-1,21e14+-1,2^53,2^63,2^64-1) x script shapes incl. nil script / odd txid lengths for UTXOs; amounts: every amount 0..9999 (thorough: 0..2,999,999) in ranges of 1000, k*10^j-1/+0/+1/+half for k in 1..9,21 and j in 0..15, 2^k-1/+0/+1 for k in 0..51, and random amounts up to 21e14 - each observed through output.NodeJSON() and utxo.NodeJSON() (float64 bits of the value written, satoshis read back). distinct = distinct serialised input; non-trivial = transactions with at least one input or output, every output/UTXO/amount case"
+	c.Stats.Rule = "transactions at every build stage through the public API (tx.From = unsigned, FillInput on one input = partially signed, FillAllInputs = signed, NewTxFromBytes of the extended bytes = decoded) plus generated transactions (nil/empty unlocking scripts, arbitrary output script bytes, boundary uint32/uint64 values), each marshalled and unmarshalled in the library and the node dialect and with the node document's hex removed (vin/vout path); transactions whose locking / unlocking scripts are data scripts with two pushes of 0..6 bytes each (both carrier forms), zero-length PUSHDATA forms alone and concatenated, truncated pushes and lone opcodes; marshalling must leave the source transaction byte-identical; lists of 0/1/2/5, also unmarshalled into variables that already hold three transactions (with and without spare capacity); outputs and UTXOs over boundary amounts (0,1,2,3,6,dust,1e8+-1,21e14+-1,2^53,2^63,2^64-1) x script shapes incl. nil script / odd txid lengths for UTXOs; amounts: every amount 0..9999 (thorough: 0..2,999,999) in ranges of 1000, k*10^j-1/+0/+1/+half for k in 1..9,21 and j in 0..15, 2^k-1/+0/+1 for k in 0..51, and random amounts up to 21e14 - each observed through output.NodeJSON() and utxo.NodeJSON() (float64 bits of the value written, satoshis read back). distinct = distinct serialised input; non-trivial = transactions with at least one input or output, every output/UTXO/amount case"
 	c.Finish()
 }
